@@ -560,6 +560,112 @@ func ScriptEmptySide(hid int, nextID *int) MHistory {
 	return h
 }
 
+// ScriptLiquidationSurplus: corpus history — positions that are force-closed while they are still worth more than they
+// owe, with a force-close fund percentage of 10 %: the owner gets the surplus less the fund's cut, the fund gets the cut,
+// and the pool must be debited by both. One position per collateral direction is liquidated by the begin blocker (after
+// the administrator raised the safety factor above the positions' health), a third one by AdminClose with the fund payment.
+func ScriptLiquidationSurplus(hid int, nextID *int) MHistory {
+	desc := map[string]interface{}{"corpus": "liquidation with surplus and a force-close fund cut, both collateral directions"}
+	e := env.New(env.Opts{NUsers: 4, Tokens: []string{"ceth"}})
+	w := &marginWorld{Env: e, FundFC: chain.NewAccount("fundfc"), FundInc: chain.NewAccount("fundinc"), Toks: []string{"ceth"}}
+	addrs := []string{e.Admin.Addr.String(), w.FundFC.Addr.String(), w.FundInc.Addr.String()}
+	for _, u := range e.Users {
+		addrs = append(addrs, u.Addr.String())
+	}
+	e.AssignAccountIDs(addrs)
+	e.BeginBlock()
+	mustOK(e.UpdateRewardsParams(0, 0, 0, "", false), "rewards params")
+	n := new(big.Int).Mul(big.NewInt(1000000), chain.E(18))
+	mustOK(e.CreatePool(e.Users[0], "ceth", n, n), "create pool")
+	ps := *margintypes.DefaultGenesis().Params
+	ps.ForceCloseFundAddress, ps.IncrementalInterestPaymentFundAddress = w.FundFC.Addr.String(), w.FundInc.Addr.String()
+	ps.ForceCloseFundPercentage = sdk.NewDecWithPrec(1, 1)
+	ps.EpochLength = 1
+	ps.RowanCollateralEnabled = true
+	mustOK(e.Tx(e.Admin, &margintypes.MsgUpdateParams{Signer: e.Admin.Addr.String(), Params: &ps}), "margin params")
+	mustOK(e.Tx(e.Admin, &margintypes.MsgUpdatePools{Signer: e.Admin.Addr.String(), Pools: []string{"ceth"}}), "margin pools")
+	h := MHistory{ID: hid, Env: e, Desc: desc}
+	e.NextBlock()
+	stepNo := 0
+	rec := func(st MStep) {
+		*nextID++
+		st.ID = *nextID
+		st.StepNo = stepNo
+		stepNo++
+		h.Steps = append(h.Steps, st)
+	}
+	open := func(u chain.Account, coll, bor string) bool {
+		uid := e.AcctID[u.Addr.String()]
+		amt := new(big.Int).Mul(big.NewInt(1000), chain.E(18))
+		pre := e.MarginSnapshot()
+		cp0, _ := e.App.ClpKeeper.GetPool(e.Ctx(), "ceth")
+		hl0 := !cp0.Health.IsNil() && cp0.Health.LTE(e.App.MarginKeeper.GetPoolOpenThreshold(e.Ctx()))
+		m := margintypes.MsgOpen{Signer: u.Addr.String(), CollateralAsset: coll, CollateralAmount: env.U(amt), BorrowAsset: bor, Position: margintypes.Position_LONG, Leverage: sdk.NewDec(2)}
+		res := e.Tx(u, &m)
+		post := e.MarginSnapshot()
+		ms := MStep{Kind: 1, Tag: 1, Signer: uid, Coll: e.DenomID[coll], Bor: e.DenomID[bor], Amt: amt, Lev: new(big.Int).Set(sdk.NewDec(2).BigInt()), HealthLow: hl0, OK: res.Code == 0, Pre: pre, Post: post,
+			Desc: map[string]interface{}{"tx": "margin Open", "signer": u.Addr.String(), "collateral": amt.String() + coll, "borrow": bor, "leverage": "2", "log": trunc(res.Log, 120)}}
+		if res.Code == 0 {
+			for _, mt := range e.App.MarginKeeper.GetAllMTPS(e.Ctx()) {
+				if mt.Address == u.Addr.String() && mtpIn(pre, uid, int64(mt.Id)) == nil {
+					pp, _ := e.App.ClpKeeper.GetPool(e.Ctx(), "ceth")
+					if hv, err := e.App.MarginKeeper.UpdateMTPHealth(e.Ctx(), *mt, pp); err == nil {
+						ms.NewHealth = new(big.Int).Set(hv.BigInt())
+					}
+				}
+			}
+		}
+		rec(ms)
+		return res.Code == 0
+	}
+	block := func() bool {
+		if e.EndBlock() {
+			return false
+		}
+		e.Commit()
+		pre := e.MarginSnapshot()
+		panicked := e.BeginBlock()
+		post := e.MarginSnapshot()
+		pre.Height = post.Height
+		var rates [][3]*big.Int
+		for _, pp := range pre.Pools {
+			q := mpoolOf(post, pp.Asset)
+			if q == nil {
+				q = &pp
+			}
+			rates = append(rates, [3]*big.Int{q.Rate, q.RN, q.RD})
+		}
+		rec(MStep{Kind: 3, Rates: rates, OK: !panicked, Pre: pre, Post: post, Desc: map[string]interface{}{"hook": "BeginBlock", "positions_before": len(pre.MTPs), "positions_after": len(post.MTPs)}})
+		return !panicked
+	}
+	if !open(e.Users[1], "rowan", "ceth") || !open(e.Users[2], "ceth", "rowan") || !open(e.Users[3], "rowan", "ceth") {
+		return h
+	}
+	// AdminClose with the fund payment: a healthy position, so there is a surplus
+	pre := e.MarginSnapshot()
+	var third env.MTP
+	for _, m := range pre.MTPs {
+		if m.Addr == e.AcctID[e.Users[3].Addr.String()] {
+			third = m
+		}
+	}
+	ac := margintypes.MsgAdminClose{Signer: e.Admin.Addr.String(), MtpAddress: e.Users[3].Addr.String(), Id: uint64(third.ID), TakeMarginFund: true}
+	res := e.Tx(e.Admin, &ac)
+	rec(MStep{Kind: 1, Tag: 3, Signer: e.AcctID[e.Admin.Addr.String()], Addr: third.Addr, PID: third.ID, IsAdmin: true, TakeFund: true, OK: res.Code == 0, Pre: pre, Post: e.MarginSnapshot(),
+		Desc: map[string]interface{}{"tx": "margin AdminClose", "signer": e.Admin.Addr.String(), "owner": e.Users[3].Addr.String(), "id": third.ID, "take_fund": true, "log": trunc(res.Log, 120)}})
+	if !block() {
+		return h
+	}
+	// the administrator raises the safety factor above the health of the open positions (about 2)
+	pre = e.MarginSnapshot()
+	ps.SafetyFactor = sdk.NewDec(5)
+	r3 := e.Tx(e.Admin, &margintypes.MsgUpdateParams{Signer: e.Admin.Addr.String(), Params: &ps})
+	rec(MStep{Kind: 2, OK: r3.Code == 0, Pre: pre, Post: e.MarginSnapshot(), Desc: map[string]interface{}{"tx": "margin UpdateParams", "safety_factor": "5", "force_close_fund_percentage": "0.1"}})
+	block()
+	block()
+	return h
+}
+
 // MonMargin — the clauses of C13 on every observed state / transition.
 func MonMargin(rep *report.Report, h MHistory) {
 	e := h.Env
@@ -764,7 +870,7 @@ func C13(c Ctx) *report.Report {
 	rep := report.New("C13", c.Seed, c.Tier)
 	rng := chain.NewRng(c.Seed + 13)
 	next := 0
-	hs := []MHistory{ScriptExtExt(9017, &next), ScriptLiquidationStuck(9009, &next), ScriptEmptySide(9007, &next)}
+	hs := []MHistory{ScriptExtExt(9017, &next), ScriptLiquidationStuck(9009, &next), ScriptEmptySide(9007, &next), ScriptLiquidationSurplus(9021, &next)}
 	hs = append(hs, RunMarginHistories(c, rep, rng, c.N(30, 800), 45, &next)...)
 	nontrivial := 0
 	for _, h := range hs {
